@@ -53,6 +53,7 @@ func init() {
 	check.Register("config", scnConfig)
 	check.Register("genesis", scnGenesisRoundTrip)
 	check.Register("timeouts", scnTimeouts)
+	check.Register("payaddr-switch", scnPayaddrSwitch)
 	check.Register("sponsored-nopay", scnSponsoredNoPay)
 	monitorFactories["C12"] = func() []world.Monitor { return []world.Monitor{NewC12(), NewC05()} }
 	c12life := lifeJobs("C12", 2, 16, map[string]string{"bigtimeout": "1"})
@@ -73,6 +74,9 @@ func init() {
 			}
 			add(map[string]string{"replica": "2", "attempts": "2", "extra": "1", "td": "small", "ready": "1"})
 			add(map[string]string{"replica": "1", "attempts": "3", "extra": "0", "td": "over", "ready": "1"})
+			// twin orders created in the same block (same examination height), one of them cancelled early
+			add(map[string]string{"replica": "1", "attempts": "3", "extra": "1", "td": "small", "twin": "1"})
+			add(map[string]string{"replica": "2", "attempts": "2", "extra": "0", "td": "small", "twin": "1"})
 			jobs = append(jobs, recipes("C12", "tiny-reduce")(tier, seed)...)
 			if tier == "thorough" {
 				for _, td := range []string{"half", "over"} {
@@ -217,7 +221,7 @@ func init() {
 		Assumptions: []string{"a restart is a new OS process over the same goleveldb directory; the leader runs in one process without interruption"}})
 	monitorFactories["C02"] = func() []world.Monitor { return []world.Monitor{&C02{}} }
 	check.RegisterSpec(&check.Spec{Prop: "C02", Level: "exploration",
-		Rule: "every ABCI call (and every direct call of the selection functions) runs under recover() and a CPU-time watchdog (a call burning more than 60 CPU-seconds is declared non-terminating; the largest terminating call observed is reported). Workloads: adversarial field values for every message (sizes 0..2^64-1, replicas <=0/huge, durations up to 2^64-1, timeouts 1..2^31-1, ids of 35/36/37 characters, separator-only commit ids, invalid cids/peers/validators) followed by block advance across every scheduled height; generated node populations (3..160 nodes, status bits, reputations around the floor, capacities around the shard size, 0..3 super nodes, stale super-node cursors) with replica counts around the eligible population, silent providers and migrations; direct calls of RandomSP / RandomIndex with seeds {empty, 1 byte, tiny, real 32-byte hashes} and counts near totals; a sweep of parameter sets that pass validation (block reward 0..8e14 around the 4e14 total, baseline, APY, halving/adjustment periods from 11, offline trigger from 1, thresholds); and the lifecycle / staking / did / fault / authorization walks of the other checks. A halt is a panic escaping InitChain/BeginBlock/EndBlock/Commit or a watchdog firing; a panic recovered inside DeliverTx is compliant and counted. A case is (transaction kind, result code) or (block housekeeping kind); distinct_nontrivial counts distinct cases.",
+		Rule: "every ABCI call (and every direct call of the selection functions) runs under recover() and a CPU-time watchdog (a call burning more than 60 CPU-seconds is declared non-terminating; the largest terminating call observed is reported). Workloads: adversarial field values for every message (sizes 0..2^64-1, replicas <=0/huge, durations up to 2^64-1, timeouts 1..2^31-1, ids of 35/36/37 characters, separator-only commit ids, invalid cids/peers/validators) followed by block advance across every scheduled height; generated node populations (3..160 nodes, status bits, reputations around the floor, capacities around the shard size, 0..3 super nodes, stale super-node cursors) with replica counts around the eligible population, silent providers and migrations; direct calls of RandomSP / RandomIndex with seeds {empty, 1 byte, tiny, real 32-byte hashes} and counts near totals; a sweep of parameter sets that pass validation (block reward 0..8e14 around the 4e14 total, baseline, APY, halving/adjustment periods from 11, offline trigger from 1, thresholds); a did:sid owner re-pointing its payment address (second cosmos account, eip155 accounts under both chain references) while orders are in flight that are then refunded by the end blocker, a cancel and a terminate; and the lifecycle / staking / did / fault / authorization walks of the other checks. A halt is a panic escaping InitChain/BeginBlock/EndBlock/Commit or a watchdog firing; a panic recovered inside DeliverTx is compliant and counted. A case is (transaction kind, result code) or (block housekeeping kind); distinct_nontrivial counts distinct cases.",
 		Jobs: func(tier string, seed int64) []check.Job {
 			var jobs []check.Job
 			add := func(scn string, n int, args map[string]string) {
@@ -247,6 +251,7 @@ func init() {
 				add("authz", 2, map[string]string{"rounds": "1", "relayers": "2"})
 				add("actor", 2, map[string]string{"rounds": "3"})
 				add("genesis", 10, map[string]string{"profile": "renewheavy", "ops": "60", "cont": "60", "drain": "1"})
+				add("payaddr-switch", 8, map[string]string{"rounds": "6"})
 				for _, m := range []string{"migrated", "debt-expire", "debt-release", "queued", "afterroll", "shorter", "longer", "term-reassign", "fp-reassign", "multiversion-migrate", "unaligned", "tiny-reduce", "fp-renewed", "double-migrate"} {
 					add("renewals", 3, map[string]string{"mode": m})
 				}
@@ -261,6 +266,7 @@ func init() {
 				add("renewals", 1, map[string]string{"mode": "debt-expire"})
 				add("renewals", 1, map[string]string{"mode": "queued"})
 				add("genesis", 1, map[string]string{"profile": "mixed", "ops": "25", "cont": "30", "recipe": "1"})
+				add("payaddr-switch", 2, map[string]string{"rounds": "4"})
 			}
 			return jobs
 		},
@@ -293,9 +299,10 @@ func init() {
 		MinCases:    map[string]int{"quick": 30, "thorough": 60},
 		Assumptions: []string{"fault rows are read raw from the node store (there is no export of them)"}})
 	check.RegisterSpec(&check.Spec{Prop: "C20", Level: "exploration",
-		Rule: "seeded sequences of delegate / undelegate (partial, full) / redelegate / validator creation and self-unbonding by four nodes, two third-party delegators and up to three validators, pledge add/remove around the capacity threshold, status resets, staking transactions that fail after the shares hook (amount above balance) or run out of gas mid-message; after every transaction and block the role predicate (capacity >= threshold and own delegation / validator shares >= threshold) is recomputed from staking and pledge queries for every super node, and promotions are checked against the declared status. A case is (operation, number of super nodes after it) or (promotion/demotion cause); distinct_nontrivial counts distinct cases.",
-		Jobs: withExtra(simpleJobs("C20", "staking", 4, 32, map[string]string{"ops": "200"}, map[string]string{"ops": "1200"}),
+		Rule: "seeded sequences of delegate / undelegate (partial, full) / redelegate / validator creation and self-unbonding by four nodes, two third-party delegators and up to three validators, pledge add/remove around the capacity threshold, status resets, a validator slashed for double-signing (tokens < shares) with a node steered to just below / above / below the share threshold on it, staking transactions that fail after the shares hook (amount above balance) or run out of gas mid-message; after every transaction and block the role predicate (capacity >= threshold and own delegation / validator shares >= threshold) is recomputed from staking and pledge queries for every super node, and promotions are checked against the declared status. A case is (operation, number of super nodes after it) or (promotion/demotion cause); distinct_nontrivial counts distinct cases.",
+		Jobs: withExtra(withExtra(simpleJobs("C20", "staking", 4, 32, map[string]string{"ops": "200"}, map[string]string{"ops": "1200"}),
 			simpleJobs("C20", "staking", 3, 24, map[string]string{"ops": "150", "stores": "1"}, map[string]string{"ops": "900", "stores": "1"})),
+			simpleJobs("C20", "staking", 2, 12, map[string]string{"ops": "100", "slash": "1"}, map[string]string{"ops": "600", "slash": "1"})),
 		MinCases:    map[string]int{"quick": 12, "thorough": 20},
 		Assumptions: []string{"the role predicate is recomputed from the staking keeper's delegation and validator records"}})
 	monitorFactories["C17"] = func() []world.Monitor { return []world.Monitor{NewC17()} }
@@ -350,7 +357,7 @@ func init() {
 
 	check.RegisterSpec(&check.Spec{Prop: "C13", Level: "exploration",
 		Rule:        "seeded random walks over the order lifecycle (store/ready/complete/update/force-push/renew/terminate/cancel/migrate/claim/capacity changes, silent providers, block advance across every scheduled height); after every block all relations are evaluated on the committed state. A case is the shape (bucketed counts of orders, shards, models, pending timeouts, pending expiries) of a state on which the relations were evaluated; distinct_nontrivial counts distinct shapes with at least one order or model.",
-		Jobs:        withExtra(lifeJobs("C13", 5, 64, nil), recipes("C13", "migrated", "afterroll", "longer", "tiny-reduce", "double-migrate", "fp-renewed")),
+		Jobs:        withExtra(lifeJobs("C13", 5, 64, nil), recipes("C13", "migrated", "afterroll", "longer", "tiny-reduce", "double-migrate", "fp-renewed", "terminate+twin", "migrated+twin")),
 		MinCases:    map[string]int{"quick": 10, "thorough": 30},
 		Assumptions: []string{"state is read through the keepers' own getters over the committed multistore", "workloads reach only the states the seeded walks produce"}})
 	check.Register("recreate", scnRecreate)
@@ -359,7 +366,7 @@ func init() {
 	lifeRule := "seeded random walks over the order lifecycle — store (sizes around the 1e-6 price rounding, replica 1-3, durations 3600-6000, sponsored payment, owner-submitted + Ready), staggered completion with silent providers, update, force-push, renew (several in a row, shorter and longer), terminate at every phase, cancel, migrate, claim, capacity add/remove, a provider without liquid balance (debt paths) — with block advance to just before / at / after every scheduled height and a final drain across all schedules; five weight profiles. "
 	check.RegisterSpec(&check.Spec{Prop: "C04", Level: "exploration",
 		Rule:        lifeRule + "The monitor decides every store/renew charge against the quote and the rightful payer, classifies every transfer touching the order/market escrows, keeps a reference income per provider (unit price x bytes x blocks over observed holdings) and a conservation balance with a dust bound of one coin per charge/refund settlement. A case is a charge shape (size, replicas, sponsored), an ending path (expiry, rotation to renewal, terminate, cancel, timeout-cancel, replica reduction, force-push) or a claim class; distinct_nontrivial counts distinct cases.",
-		Jobs:        withExtra(lifeJobs("C04", 5, 64, nil), recipes("C04", "shorter", "queued", "migrated", "debt-release", "term-reassign", "fp-reassign", "fp-renewed", "double-migrate")),
+		Jobs:        withExtra(lifeJobs("C04", 5, 64, nil), recipes("C04", "shorter", "queued", "migrated", "debt-release", "term-reassign", "fp-reassign", "fp-renewed", "double-migrate", "terminate+twin")),
 		MinCases:    map[string]int{"quick": 12, "thorough": 25},
 		Assumptions: []string{"bank transfer events are complete; prices are exact in 18 decimals"}})
 	check.RegisterSpec(&check.Spec{Prop: "C05", Level: "exploration",
@@ -388,7 +395,7 @@ func init() {
 		Assumptions: []string{"liabilities are recomputed from exported module state"}})
 	check.RegisterSpec(&check.Spec{Prop: "C07", Level: "exploration",
 		Rule:        lifeRule + "For every transaction, begin block and end block the monitor compares, per provider, coins moved to/from the node escrow with the change of recorded collateral net of debt, checks recipients, withdrawal against free capacity of the pre-state, and row bounds. A case is (operation, debts present, number of node-escrow flows) or (withdrawal: leaves zero free / capacity in use); distinct_nontrivial counts distinct cases.",
-		Jobs:        withExtra(lifeJobs("C07", 5, 48, nil), recipes("C07", "shorter", "longer", "debt-release", "debt-expire", "migrated", "fp-renewed")),
+		Jobs:        withExtra(lifeJobs("C07", 5, 48, nil), recipes("C07", "shorter", "longer", "debt-release", "debt-expire", "migrated", "fp-renewed", "longer+twin")),
 		MinCases:    map[string]int{"quick": 10, "thorough": 20},
 		Assumptions: []string{"reward claims are decided by C08"}})
 	check.RegisterSpec(&check.Spec{Prop: "C08", Level: "exploration",
@@ -409,7 +416,7 @@ func init() {
 			for i := 0; i < cfg; i++ {
 				jobs = append(jobs, check.Job{Prop: "C08", Scenario: "config", Seed: seed*573259391 + 1000 + int64(i), Args: map[string]string{"config": fmt.Sprint(int(seed)*13 + i), "ops": "16"}})
 			}
-			jobs = append(jobs, recipes("C08", "unaligned", "unaligned")(tier, seed)...)
+			jobs = append(jobs, recipes("C08", "unaligned", "unaligned", "debt-release+rewards", "debt-expire+rewards", "queued+rewards")(tier, seed)...)
 			return jobs
 		},
 		MinCases:    map[string]int{"quick": 4, "thorough": 8},
@@ -417,7 +424,7 @@ func init() {
 	check.RegisterSpec(&check.Spec{Prop: "C11", Level: "exploration",
 		Rule: lifeRule + "Plus recipes: cancel / timeout / terminate (completed and in flight) followed by re-creation of the same data id and advance across the old and new scheduled heights. The monitor builds the reference timetable from accepted requests and checks existence, provider, capacity accounting, model presence and release at every block boundary. A case is a release class (renewals, migrated, term bucket), an early ending (terminate, force-push), a migration hand-over or a re-creation mode; distinct_nontrivial counts distinct cases.",
 		Jobs: withExtra(lifeJobs("C11", 5, 64, nil), func(tier string, seed int64) []check.Job {
-			jobs := recipes("C11", "queued", "afterroll", "migrated", "shorter", "double-migrate", "fp-renewed")(tier, seed)
+			jobs := recipes("C11", "queued", "afterroll", "migrated", "shorter", "double-migrate", "fp-renewed", "terminate+twin", "shorter+twin")(tier, seed)
 			n := 1
 			if tier == "thorough" {
 				n = 8
@@ -457,7 +464,7 @@ func init() {
 		Assumptions: []string{"history is read from the metadata query after every transaction and block"}})
 	check.RegisterSpec(&check.Spec{Prop: "C14", Level: "exploration",
 		Rule:        "same lifecycle walks; after every block the six aggregate equalities are evaluated per provider and network-wide. A case is the bucketed (providers, live shards, any renewed shard, open debts) shape of a state; distinct_nontrivial counts distinct shapes.",
-		Jobs:        withExtra(lifeJobs("C14", 5, 64, nil), recipes("C14", "shorter", "debt-release", "debt-expire", "unaligned", "fp-renewed", "double-migrate")),
+		Jobs:        withExtra(lifeJobs("C14", 5, 64, nil), recipes("C14", "shorter", "debt-release", "debt-expire", "unaligned", "fp-renewed", "double-migrate", "migrated+twin")),
 		MinCases:    map[string]int{"quick": 6, "thorough": 12},
 		Assumptions: []string{"state is read through the keepers' own getters over the committed multistore"}})
 }
